@@ -82,6 +82,11 @@ def gen_config(draw, nclasses=None, overloads=True, extends=True, keywords=True,
             ims.append(draw(gen_decl(name, classes, keywords, (2 if has_overload and rest else rest), untyped_ret, arrays)))
             if has_overload:
                 ims.append(draw(gen_decl(name, classes, keywords, rest, untyped_ret, arrays)))
+        if draw(st.integers(0, 1)) == 0:
+            # an optional-returning reader and a method that takes exactly that optional: the shape behind `x&.reader` arguments
+            t0 = draw(st.sampled_from(["String", "Int", "Float", "Symbol"]))
+            ims.append({"name": "sn%d" % i, "args": [], "ret": [t0, "NilClass"], "block": []})
+            ims.append({"name": "st%d" % i, "args": [{"types": [t0, "NilClass"], "key": None, "default": False, "rest": False}], "ret": ["Self"], "block": []})
         cms = [{"name": "new", "args": [], "ret": [c], "block": []}]
         if draw(st.integers(0, 2)) == 0:
             cms.append(draw(gen_decl("cm0", classes, keywords, rest, untyped_ret, arrays)))
